@@ -1264,16 +1264,17 @@ impl JsPromise {
                     context.vm.frame_mut().fp = fp;
                     context.vm.frame_mut().rp = rp;
 
-                    match continuation.call(
+                    let result = match continuation.call(
                         CompletionRecord::Normal(args.get_or_undefined(0).clone()),
                         context,
                     ) {
-                        ControlFlow::Continue(value) => JsPromise::resolve(value, context)?
-                            .await_native(continuation.clone(), context),
-                        ControlFlow::Break(Err(err)) => return Err(err),
-                        ControlFlow::Break(Ok(())) => {}
-                    }
+                        ControlFlow::Continue(value) => JsPromise::resolve(value, context)
+                            .map(|promise| promise.await_native(continuation.clone(), context)),
+                        ControlFlow::Break(result) => result,
+                    };
 
+                    // NOTE: The frame and the stack of the coroutine must be taken off the VM again
+                    // before returning, also when the continuation failed.
                     std::mem::swap(&mut context.vm.stack, &mut r#gen.stack);
                     r#gen.call_frame = context.vm.pop_frame();
                     assert!(r#gen.call_frame.is_some());
@@ -1284,6 +1285,8 @@ impl JsPromise {
                             .js_expect("must be async generator")?
                             .context = Some(r#gen);
                     }
+
+                    result?;
 
                     // e. Assert: When we reach this step, asyncContext has already been removed from the execution context stack and prevContext is the currently running execution context.
                     // f. Return undefined.
@@ -1330,18 +1333,19 @@ impl JsPromise {
                     context.vm.frame_mut().fp = fp;
                     context.vm.frame_mut().rp = rp;
 
-                    match continuation.call(
+                    let result = match continuation.call(
                         CompletionRecord::Throw(JsError::from_opaque(
                             args.get_or_undefined(0).clone(),
                         )),
                         context,
                     ) {
-                        ControlFlow::Continue(value) => JsPromise::resolve(value, context)?
-                            .await_native(continuation.clone(), context),
-                        ControlFlow::Break(Err(err)) => return Err(err),
-                        ControlFlow::Break(Ok(())) => {}
-                    }
+                        ControlFlow::Continue(value) => JsPromise::resolve(value, context)
+                            .map(|promise| promise.await_native(continuation.clone(), context)),
+                        ControlFlow::Break(result) => result,
+                    };
 
+                    // NOTE: The frame and the stack of the coroutine must be taken off the VM again
+                    // before returning, also when the continuation failed.
                     std::mem::swap(&mut context.vm.stack, &mut r#gen.stack);
                     r#gen.call_frame = context.vm.pop_frame();
                     assert!(r#gen.call_frame.is_some());
@@ -1352,6 +1356,8 @@ impl JsPromise {
                             .js_expect("must be async generator")?
                             .context = Some(r#gen);
                     }
+
+                    result?;
 
                     Ok(JsValue::undefined())
                 },
